@@ -6,8 +6,8 @@ from mc.chartgen import skeletons, flatten, add_scheme_S, describe, has_variant
 
 PLAN = {
     # (nmin, nmax, k, eventless twins)
-    'quick': [(2, 4, 2, True), (5, 5, 2, False)],
-    'thorough': [(2, 4, 3, True), (5, 5, 2, True), (6, 6, 2, False)],
+    'quick': [(2, 4, 2, True), (5, 5, 2, False), (5, 6, '3o', False)],
+    'thorough': [(2, 4, 3, True), (5, 5, 2, True), (5, 6, 3, False), (7, 7, '3o', False)],
 }
 
 
@@ -32,7 +32,7 @@ def run(tier, seed):
             for scheme in ('asc', 'desc'):
                 for ivar in ((0, 1) if has_variant(tree) else (0,)):
                     tasks.append((tree, scheme, ivar, k, twin))
-    tasks.sort(key=lambda t: -len(repr(t[0])) * (2 if t[4] else 1))
+    tasks.sort(key=lambda t: -len(repr(t[0])) * (2 if t[4] else 1) * (3 if t[3] == 3 else 1))
     results = harness.pmap(work, tasks)
     agg = harness.Agg()
     viols = []
